@@ -25,7 +25,7 @@ def reader(ctx):
     ob3 = ctx.ob("C12.3", "DMA reader output: returned data enters the data FIFO by a whole-record connect, source.valid only with a pending "
                           "reservation, source.last comes from the reservation entry that was pushed with the command's last", 6)
     for tag, ha, cmdn, rdn in (("native", NATIVE, "port.cmd", "port.rdata"), ("axi", AXI, "port.ar", "port.r")):
-        v = elab(ctx, DMA, "LiteDRAMDMAReader", hasattrs=ha, kwargs={"with_csr": Const(False)})
+        v = elab(ctx, DMA, "LiteDRAMDMAReader", hasattrs=ha, kwargs={"with_csr": Const(False), "fifo_depth": Sym("fifo_depth"), "fifo_buffered": Sym("fifo_buffered")})
         fifos = v.instances_of("SyncFIFO") or [o for o in v.d.objs if o.cls == "SyncFIFO"]
         res = [o for o in fifos if key(Sym(str(o) + ".sink.ready")) in value_prim_keys(v, _single(v, cmdn + ".valid"))] if _single(v, cmdn + ".valid") is not None else []
         if not ob1.need(len(fifos) == 2, "%s: expected reservation FIFO + data FIFO, found %d SyncFIFOs" % (tag, len(fifos))):
@@ -61,19 +61,26 @@ def reader(ctx):
         if pop != dpop:
             ob1.refute("%s:pop" % tag, "reservation is released under %s but a word leaves the data FIFO under %s" % (sorted(pop), sorted(dpop)),
                        v.drivers(rk + ".source.ready")[0].loc if v.drivers(rk + ".source.ready") else None)
-        # capacities
-        cr, cd = fifo_capacity(rf), fifo_capacity(df)
-        ge = lin_ge(cd, cr) if cr is not None and cd is not None else None
-        ob1.instance("%s: capacities" % tag, {"reservation": key(cr), "data": key(cd), "data>=reservation": ge})
-        if ge is False:
-            ob1.refute("%s:capacity" % tag, "reservation FIFO capacity %s exceeds data FIFO capacity %s" % (key(cr), key(cd)), rf.loc)
-        elif ge is None:
-            d = lin_diff(cd, cr)
-            # data capacity = depth + bool(buffered) >= depth : fine when the only difference is a non-negative bool atom
-            if d is not None and all(c > 0 for c in d.t.values()) and all(any(a.startswith("bool(") for a in m) or m == () for m in d.t):
-                pass
-            else:
-                ob1.unknown("%s: cannot compare capacities %s and %s" % (tag, key(cr), key(cd)))
+        # capacities: the reservation may not be deeper than the declared depth of the data FIFO (the extra output register of a buffered
+        # FIFO is not counted: LiteX builds a plain one-entry buffer for depth 1 whatever `buffered` says)
+        def depth_of(o):
+            return o.args[1] if len(o.args) > 1 else o.kwargs.get("depth")
+
+        def alts(t_):
+            if isinstance(t_, Op) and t_.op in ("phi", "ifexp"):
+                return alts(t_.args[1]) + alts(t_.args[2])
+            return [t_]
+        cr, cd = depth_of(rf), depth_of(df)
+        rb = rf.args[2] if len(rf.args) > 2 else rf.kwargs.get("buffered", Const(False))
+        if cr is not None and not (isinstance(rb, Const) and not rb.v):
+            cr = Op("+", (cr, Const(1)))       # a buffered reservation FIFO may hold one entry more
+        res_ = [lin_ge(cd, a_) for a_ in alts(cr)] if cr is not None and cd is not None else [None]
+        ob1.instance("%s: depths" % tag, {"reservation": key(cr) if cr is not None else None, "data": key(cd) if cd is not None else None, "data>=reservation": res_})
+        if any(r_ is False for r_ in res_):
+            ob1.refute("%s:capacity" % tag, "reservation FIFO depth %s exceeds the data FIFO depth %s for some configuration: more reads can be outstanding than the data FIFO "
+                       "is guaranteed to hold (a buffered FIFO of depth 1 has no extra output register)" % (key(cr), key(cd)), rf.loc)
+        elif any(r_ is None for r_ in res_):
+            ob1.unknown("%s: cannot compare depths %s and %s" % (tag, key(cr) if cr is not None else None, key(cd) if cd is not None else None))
         # C12.2
         fs = fire_keys(v, sink)
         fcmd = fire_keys(v, cmdn)
@@ -100,7 +107,11 @@ def reader(ctx):
             if rk + ".source.valid" not in ks or dk + ".source.valid" not in ks:
                 ob3.refute("%s:source.valid" % tag, "source.valid (%s) does not require both a pending reservation and a data word" % l, l.loc)
         sl = v.drivers(source + ".last")
-        if not sl or any(key(l.value) != rk + ".source.last" for l in sl):
+        def from_res(l):
+            # last = res.last, possibly qualified (as a guard or as a conjunct) by the reservation / data valid
+            ks = prim_keys(v, v.guard_lits(l, False) + conj(l.value))
+            return rk + ".source.last" in ks and ks - {rk + ".source.last"} <= {rk + ".source.valid", dk + ".source.valid"}
+        if not sl or any(not from_res(l) for l in sl):
             ob3.refute("%s:source.last" % tag, "source.last is not taken from the reservation entry: %s" % [str(x) for x in sl], sl[0].loc if sl else None)
         rl = _single(v, rk + ".sink.last")
         ob3.instance("%s: reservation last" % tag, key(rl) if rl is not None else None)
@@ -193,4 +204,4 @@ def run(ctx):
     reader(ctx)
     writer(ctx)
     csr(ctx)
-    ctx.assume("stream.SyncFIFO is lossless, ordered, capacity = depth (+1 when buffered); the port accepts/returns in order (C01)")
+    ctx.assume("stream.SyncFIFO is lossless, ordered, capacity >= depth; the port accepts/returns in order (C01)")
